@@ -256,6 +256,7 @@ def build(case):
 
     set_oracle(case)
     is_async = case["async"]
+    awaitable_objects = set(case.get("awaitableObjects", []))
     kind = case["kind"]
 
     def behave(a, cid, site):
@@ -272,6 +273,8 @@ def build(case):
                 w.log.append(["await" + site, cid])
                 return await abehave(inner, cid, site)
 
+            if is_async and site == "cond" and cid in awaitable_objects:
+                return _AwaitableObject(_c())      # an awaitable that is not a coroutine (like a Future)
             return _c()
         raise AssertionError(a)
 
@@ -534,6 +537,19 @@ def classify_exception(w, exc):
     if isinstance(exc, NotImplementedError):
         return ["NotImplementedError", None]
     return ["other", t.__name__, msg[:80]]
+
+
+class _AwaitableObject:
+    """An awaitable that is not a coroutine object (as asyncio.Future, a Task or any object with __await__)."""
+
+    def __init__(self, co):
+        self._co = co
+
+    def __await__(self):
+        return self._co.__await__()
+
+    def __del__(self):
+        self._co.close()
 
 
 def _drive(coro):
